@@ -237,16 +237,18 @@ where
 
         // Draw the goal-tree root from the planner's own generator when a seed was configured,
         // so that seeded runs are reproducible; fall back to the thread generator otherwise.
-        let goal_state = match self.rng.as_mut() {
+        let goal_sample = match self.rng.as_mut() {
             Some(rng) => pd.goal.sample_goal(&mut **rng),
             None => pd.goal.sample_goal(&mut rand::rng()),
-        }
-        .unwrap();
-        let goal_node = Node {
-            state: goal_state,
-            parent_index: None,
         };
-        self.goal_tree.push(goal_node);
+        // If the goal cannot be sampled now the goal tree stays empty and solve() tries again.
+        if let Ok(goal_state) = goal_sample {
+            let goal_node = Node {
+                state: goal_state,
+                parent_index: None,
+            };
+            self.goal_tree.push(goal_node);
+        }
     }
 
     fn solve(&mut self, timeout: Duration) -> Result<Path<S>, PlanningError> {
@@ -276,7 +278,11 @@ where
 
         // The root of the goal tree is a sampled goal state: it must be valid as well. If the one
         // drawn in setup() is not, draw again (a bounded number of times) before giving up.
-        if !vc.is_valid(&self.goal_tree[0].state) {
+        let goal_root_ok = self
+            .goal_tree
+            .first()
+            .is_some_and(|root| vc.is_valid(&root.state));
+        if !goal_root_ok {
             const MAX_GOAL_ROOT_ATTEMPTS: usize = 100;
             let mut valid_root = None;
             for _ in 0..MAX_GOAL_ROOT_ATTEMPTS {
@@ -324,11 +330,15 @@ where
                 };
 
             // 3. Sample a random target state `q_rand`, with goal biasing.
-            // TODO: Handle sampling failures.
-            let q_rand = if rng.random_bool(self.goal_bias) {
-                goal.sample_goal(&mut rng).unwrap()
+            let sampled = if rng.random_bool(self.goal_bias) {
+                goal.sample_goal(&mut rng)
             } else {
-                pd.space.sample_uniform(&mut rng).unwrap()
+                pd.space.sample_uniform(&mut rng)
+            };
+            // A sampler that fails costs this iteration only; one that keeps failing ends in
+            // Err(Timeout) through the check above.
+            let Ok(q_rand) = sampled else {
+                continue;
             };
 
             // 4. Try to extend tree_a towards q_rand.
